@@ -388,6 +388,13 @@ public:
          if (auto *FD = E->getDirectCallee())
          {
             calleeAttrs(FD);
+            if (auto *MD = dyn_cast<CXXMethodDecl>(FD))
+            {
+               if (MD->isConst())
+               {
+                  J.attribute("cq", 1);
+               }
+            }
             std::vector<const Stmt *> args;
             if (isa<CXXMethodDecl>(FD) && E->getNumArgs() > 0)
             {
@@ -426,6 +433,10 @@ public:
             if (MD->isVirtual())
             {
                J.attribute("v", 1);
+            }
+            if (MD->isConst())
+            {
+               J.attribute("cq", 1);
             }
          }
          if (auto *O = E->getImplicitObjectArgument())
